@@ -216,7 +216,9 @@ def main(tier, replay=None):
                    ['Coq 8.16.1 kernel incl. vm_compute', 'harness/gen/crc.py (regex translator of the CRC32C_0..3 initialisers)',
                     'harness/gen/c16_vectors.py (text vectors -> Coq data)',
                     'harness/gen/hashc.py (C-subset translator of murmur3.c / spooky2.c / util_rotl32,64 -> Gen/HashProgs.v; control structure token-recognised; '
-                    'a size_t operand of a 32-bit ^= is truncated at the use, justified by C16_hashc_w32_lxor)', 'extraction (ExtrOcamlBasic only) + ocaml/C16/driver.ml',
+                    'a size_t operand of a 32-bit ^= is truncated at the use, justified by C16_hashc_w32_lxor)',
+                    'harness/gen/crcc.py (CRC loops of util.h/util.c -> Gen/CrcProgs.v) and harness/gen/varintc.py (coders of stream.c -> Gen/VarintProgs.v): '
+                    'expressions parsed, loop / goto / return frames token-recognised; a read stream is the list of bytes to come; `return -1` after the EOF test = Eof, elsewhere = Bad', 'extraction (ExtrOcamlBasic only) + ocaml/C16/driver.ml',
                     'harness/c/c16_drv.c', 'harness/py/c16_lib.py + the table-driven CRC in check_C16.py (independent oracles)',
                     'vectors/C16/*.txt and vectors/C16/arrays/* were produced by the pinned tree / binary (commit e695936)',
                     'ASSUMED: crc32b/crc32q (SSE4.2) compute the bit-serial byte step on 1/8 bytes (CrcModel.hw_crc32b/q); validated by the run on this CPU',
@@ -542,7 +544,7 @@ def main(tier, replay=None):
         # property is no longer shown and the search has found nothing
         chk.violation('obligation', 'proof obligation of C16 no longer checks: %s -- %s' % ('; '.join(names),
                       ' | '.join('%s: %s' % (f.get('where'), str(f.get('error'))[:200]) for f in sorted(ob['failed'], key=lambda f: f.get('where') != 'translator'))[:500]),
-                      {'theorem_files': ['coq/Props/Properties_C16.v', 'coq/Props/Properties_C16_hashc.v'], 'failed': ob['failed'], 'named': names,
+                      {'theorem_files': sorted(os.path.relpath(x, VERIF) for x in glob.glob(os.path.join(COQ, 'Props', 'Properties_C16*.v'))), 'failed': ob['failed'], 'named': names,
                        'log_tail': ob['log'][-1500:],
                        'search': 'differential run: %d violations with a concrete input (%d evaluations)' % (len(chk.violations), ev)},
                       no_input=not chk.violations)
